@@ -23,8 +23,8 @@ import time
 from lib import common as C
 
 ID = "C11"
-PROP_MODULES = ["GPVerif.Props.C11"]
-BUILD_TARGETS = ["GPVerif.Props.C11", "GPVerif.Gen.MTIndex", "GPVerif.Model.Proto"]
+PROP_MODULES = ["GPVerif.Props.C11", "GPVerif.Props.C11Batch"]
+BUILD_TARGETS = ["GPVerif.Props.C11", "GPVerif.Props.C11Batch", "GPVerif.Gen.MTIndex", "GPVerif.Model.Proto"]
 RULE = ("index cells = (n, t <= 4 incl. n != t) x layout x batch shape in {(), (2,)} x index expression; expressions are "
         "built from ints in [-len-1, len], slices with start/stop in {None} u [-len-2, len+2] and step in "
         "{None,1,2,3,len+1,0,-1}, 1-d index tensors / python lists (negative entries, broadcasting, out-of-range), "
@@ -335,7 +335,7 @@ def check_cell(ctx, W, comps, bare, eff, origin, lines, recs, bcomp=None):
         if err is None:
             ctx.fail(key + ":accepted-invalid", f"{text}: torch rejects this index for the mean, d[idx] returned "
                      f"{type(R).__name__} with mean shape {tuple(Rmean.shape)}", replay)
-        if want_line:
+        if want_line and not W.batch:      # with batch dimensions the B line carries the "invalid <=> torch raises" comparison
             rec["spec"] = "none"
             lines.append(f"G {1 if W.inter else 0} {W.n} {W.t} {lean_comp(eff[0])} {lean_comp(eff[1])}")
             recs.append(rec)
@@ -392,7 +392,8 @@ def check_cell(ctx, W, comps, bare, eff, origin, lines, recs, bcomp=None):
     if problems:
         ctx.fail(key, f"{text}: " + "; ".join(problems)[:300], replay)
     # ---- positions for the model comparison (lazy tags only: exact decode from the diagonal)
-    if want_line and locp.numel() == 0 and locp.dim() >= 1 and locp.shape[-1] > 0:
+    if want_line and locp.numel() == 0 and locp.dim() >= 1 and \
+            (locp.shape[-1] > 0 or (kind_of(eff[0]), kind_of(eff[1])) == ("int", "int")):
         ctx.count("empty_batch_event_positions_not_decoded")   # no batch member to read the event positions from (B line covers it)
     elif want_line:
         m = locp.shape[-1]
